@@ -48,14 +48,36 @@ def _wrap_user(t: Term):
     return t
 
 
+class NoCopyAtom:
+    """An input value that can be pickled but NOT copied (stands for a lock, an open file, a generator ...): a valid
+    argument that code paths which copy.deepcopy their arguments choke on."""
+
+    def __init__(self, a: str) -> None:
+        self._pfverif_atom = a
+
+    def __eq__(self, o: object) -> bool:
+        return isinstance(o, NoCopyAtom) and self._pfverif_atom == o._pfverif_atom
+
+    def __hash__(self) -> int:
+        return hash(self._pfverif_atom)
+
+    def __repr__(self) -> str:
+        return self._pfverif_atom
+
+    def __deepcopy__(self, memo):
+        raise TypeError("cannot copy a NoCopyAtom (it stands for a lock / an open file)")
+
+    __copy__ = __deepcopy__
+
+
 def inputs_to_py(inputs: list[list], kinds: dict[str, str] | None = None) -> dict[str, Any]:
     """[[name, value-json]] -> python inputs; arrays of rank 1 as list or ndarray (kinds[name]), rank>=2 ndarray.
     kinds[name] == "userclass": a list whose elements are instances of a class defined in __main__."""
     out: dict[str, Any] = {}
     for name, vj in inputs:
         t = from_json(vj)
-        if (kinds or {}).get(name) == "userclass":
-            cls = user_atom_class()
+        if (kinds or {}).get(name) in ("userclass", "nocopy"):
+            cls = user_atom_class() if kinds[name] == "userclass" else NoCopyAtom
             out[name] = [cls(x.f) for x in t.a] if t.f == "#arr" and all(not y.a for y in t.a) else cls(t.f) if not t.a else t
             if isinstance(out[name], Term):
                 out[name] = list(to_nd(t))
